@@ -5,6 +5,7 @@
 -/
 import Rva.Proofs.C11c
 import Rva.Proofs.C03d
+import Rva.Proofs.C16b
 namespace Rva
 
 theorem insNat_length_le (x : Nat) (l : List Nat) : (insNat x l).length ≤ l.length + 1 := by
@@ -365,5 +366,24 @@ theorem pipeline_markup_terminates (desc : Bool) (nodes : List Node) (p : Option
   have s3 := edgesSame_outSmall (available_edges (deadCode g1)) hsz s2
   have s4 := (ecallTerm_nextsSub _).outSmall s3
   exact ⟨s4, markup_done desc _ s4⟩
+
+/-! ### the theorems of C11b / C16b without their per-program hypothesis -/
+
+/-- **C11 (`markStep_body_total`).** On every graph with at most two successors per node - every
+    graph the pipeline hands to the markup pass (`pipeline_markup_terminates`) - one step of the
+    markup pass at a function entry adds exactly one function whose recorded body is exactly the
+    set of nodes the entry reaches in the resulting graph. -/
+theorem markStep_body_total (desc : Bool) (g g' : Cfg) (e : Nat) (he : e < g.nodes.size) (hs : OutSmall g)
+    (hn : RetNoNext g) (hfe : (g.get e).node.isFunctionEntry = true) (h : markStep desc g e = .ok g') :
+    ∃ f, g'.funcs = g.funcs ++ [f] ∧ f.entry = e ∧ ∀ n, n ∈ f.nodes ↔ Reach g' e n :=
+  markStep_body desc g g' e hn hfe (markLoop_terminates desc g e he hs).1 h
+
+/-- **C16 (`markStep_error_total`).** On every such graph, when the markup pass fails at a function
+    entry, no instruction reachable from that entry is a return. -/
+theorem markStep_error_total (desc : Bool) (g : Cfg) (e : Nat) (he : e < g.nodes.size) (hs : OutSmall g)
+    (err : CfgErr) (hn : RetNoNext g) (h : markStep desc g e = .error err) :
+    ∀ n, Reach (markLoop desc e (markFuel g) { g := g, stack := [e] }).g e n →
+      ((markLoop desc e (markFuel g) { g := g, stack := [e] }).g.get n).node.isReturn = false :=
+  markStep_error_no_return desc g e err hn h (markLoop_terminates desc g e he hs).1
 
 end Rva
